@@ -367,4 +367,23 @@ pub fn register(l: &mut Vec<Obl>) {
                 r
             });
     }
+    // XYZ <-> Oklab edge on rays from black through 8 colours (configurations) with the scale symbolic: after taking constant factors out
+    // of the cube roots both directions are polynomials in cbrt(t), and z3 decides the round trip
+    for (k, dir) in [[0.4124, 0.2126, 0.0193], [0.3576, 0.7152, 0.1192], [0.1805, 0.0722, 0.9505], [0.7700, 0.9278, 0.1385],
+                     [0.5929, 0.2848, 0.9698], [0.5381, 0.7874, 1.0697], [0.9505, 1.0, 1.089], [0.6, 0.5, 0.2]].iter().enumerate() {
+        let dir = *dir;
+        obl!(l; format!("c01_xyz_oklab_xyz_ray{}", k), "C01", Tier::Quick,
+            format!("XYZ (D65) -> Oklab -> XYZ returns the colour (1e-5) for every colour t x ({}, {}, {}), t in [0.02, 1]", dir[0], dir[1], dir[2]),
+            ["<Oklab<T> as FromColorUnclamped<Xyz<D65,T>>>::from_color_unclamped", "<Xyz<D65,T> as FromColorUnclamped<Oklab<T>>>::from_color_unclamped"],
+            [var("t", 0.02, 1.0)];
+            |v| {
+                let mut r = Res::<B>::new();
+                let xyz = Xyz::<wp::D65, T>::new(v[0] * T::k(dir[0]), v[0] * T::k(dir[1]), v[0] * T::k(dir[2]));
+                let back: Xyz<wp::D65, T> = Xyz::from_color_unclamped(Oklab::<T>::from_color_unclamped(xyz));
+                r.goal("x", back.x.close(xyz.x, 1e-5));
+                r.goal("y", back.y.close(xyz.y, 1e-5));
+                r.goal("z", back.z.close(xyz.z, 1e-5));
+                r
+            });
+    }
 }
